@@ -67,6 +67,11 @@ Fixpoint c_loop {S} (fuel : nat) (cdef cond : S -> bool) (body inc : S -> cres S
 
 (* fuel of  for (i = lo; i < hi; i++) : number of iterations + the final test *)
 Definition c_fuel_lt (i hi : Z) : nat := Datatypes.S (Z.to_nat (hi - i)).
+(* likewise for the conditions i <= hi, i > lo, i >= lo (the loop semantics is the same c_loop; a loop that
+   does not step by one towards its bound runs out of fuel) *)
+Definition c_fuel_le (i hi : Z) : nat := Datatypes.S (Z.to_nat (hi - i + 1)).
+Definition c_fuel_gt (i lo : Z) : nat := Datatypes.S (Z.to_nat (i - lo)).
+Definition c_fuel_ge (i lo : Z) : nat := Datatypes.S (Z.to_nat (i - lo + 1)).
 
 (* function boundary *)
 Definition c_fun {S} (r : cres S) : fres :=
